@@ -8,6 +8,7 @@ from pyvc.core import Unsupported
 from pyvc.interp import PyRaise
 from pyvc.interp import LoopSpec
 from pyvc.values import *
+from pyvc.values import Builtin
 
 POD = 'moPepGen/seqvar/VariantRecordPoolOnDisk.py'
 I_, B_ = z3.IntSort(), z3.BoolSort()
@@ -296,4 +297,153 @@ class SeriesSort(Contract):
                   sorted(st.log) == sorted(('sort', n, False) for n in ('transcriptional', 'intronic', 'fusion')))
 
 
-NATIVE = []
+# ----------------------------------------------------------------------------
+# what set(records) merges: the identity of a variant record
+# ----------------------------------------------------------------------------
+VR = 'moPepGen/seqvar/VariantRecord.py'
+# the fields that decide which variant a GVF record denotes (GVF documentation): position, alleles and type; the deleted / replaced range;
+# the donor range of an insertion / substitution; the partner of a fusion
+IDENTITY_ATTRS = ('START', 'END', 'DONOR_START', 'DONOR_END', 'ACCEPTER_TRANSCRIPT_ID', 'ACCEPTER_POSITION')
+
+
+class _Attrs06r:
+    def __init__(self, who):
+        self.who, self.vals = who, {}
+
+    def sym_method(self, I, name, a, k):
+        if name == 'get' and isinstance(a[0], str):
+            return self.sym_getitem(I, a[0])
+        raise Unsupported(f'attrs.{name}')
+
+    def sym_getitem(self, I, key):
+        if key not in self.vals:
+            self.vals[key] = SymObj('Field06r', who=self.who, name=key)
+        return self.vals[key]
+
+    def sym_contains(self, I, key):
+        return I.e.bool(f'{self.who}_has_{key}')
+
+
+@register
+class RecordIdentity(Contract):
+    """pool[key] removes duplicates with set(): two records are merged when their hashes agree and __eq__ holds. Records that differ in a
+    field that decides which variant they denote - position, REF, ALT, type, the deleted / replaced range, the donor range, the partner
+    transcript and position of a fusion - must stay apart, whatever files they come from and in whatever order: each such field is
+    either compared by __eq__ or part of the hashed tuple"""
+    path, qualname, props = VR, 'VariantRecord.__eq__', ('C06',)
+    assumptions = ('assumed: hash() of a tuple separates tuples that differ in a component (no collisions); the attributes of equal fields compare equal',)
+
+    def mk(self, I, who):
+        at = _Attrs06r(who)
+        return SymObj('VariantRecord', location=SymObj('Field06r', who=who, name='location', start=SymObj('Field06r', who=who, name='location.start'),
+                                                      end=SymObj('Field06r', who=who, name='location.end')),
+                      ref=SymObj('Field06r', who=who, name='ref'), alt=SymObj('Field06r', who=who, name='alt'), type=SymObj('Field06r', who=who, name='type'),
+                      id=SymObj('Field06r', who=who, name='id'), attrs=at), at
+
+    def setup(self, I):
+        st = types.SimpleNamespace(eqs={}, hashed=None)
+        st.a, st.attrs_a = self.mk(I, 'a')
+        st.b, st.attrs_b = self.mk(I, 'b')
+        st.args = [st.a, st.b]
+        self._cur = st
+        return st
+
+    @property
+    def models(self):
+        c = self
+
+        def inst(reg):
+            def feq(I, x, y):
+                st = c._cur
+                if isinstance(y, SymObj) and y.cls == 'Field06r' and y.fields['name'] == x.fields['name'] and y.fields['who'] != x.fields['who']:
+                    nm = x.fields['name']
+                    if nm not in st.eqs:
+                        st.eqs[nm] = I.e.bool(f'same_{nm}')
+                    return st.eqs[nm]
+                raise Unsupported(f'comparison of {x.fields["name"]} with {y!r}')
+            reg.protocol_('Field06r', '__eq__', feq)
+
+            def hash_(I, a, k):
+                c._cur.hashed = list(a[0]) if isinstance(a[0], (tuple, list)) else [a[0]]
+                return I.e.int('hash_value')
+            reg.global_(VR, 'hash', Builtin('hash', hash_))
+        return (inst,)
+
+    def post_return(self, I, st, ret):
+        e = I.e
+        from pyvc.core import as_bool
+        module, cls, fnode = I.repo.function_node(VR, 'VariantRecord.__hash__')
+        I.inline(module, cls, fnode, [st.a], {}, qualname='VariantRecord.__hash__')
+        hashed = st.hashed or []
+        in_hash = lambda f: any(x is f for x in hashed)
+        r = as_bool(ret) if not isinstance(ret, bool) else z3.BoolVal(ret)
+
+        def separated(nm, field):
+            # merged (eq holds and the hashes agree) only if this field agrees: compared by __eq__, or in the hashed tuple
+            compared = z3.Implies(r, st.eqs[nm]) if nm in st.eqs else z3.Not(r)
+            return z3.BoolVal(True) if in_hash(field) else compared
+        loc = st.a.fields['location']
+        e.prove('C06/record-identity/position-decides', z3.Or(separated('location', loc),
+                                                              z3.And(separated('location.start', loc.fields['start']), separated('location.end', loc.fields['end']))))
+        for nm in ('ref', 'alt', 'type'):
+            e.prove(f'C06/record-identity/{nm}-decides', separated(nm, st.a.fields[nm]))
+        for key in IDENTITY_ATTRS:
+            e.prove(f'C06/record-identity/{key}-decides', separated(key, st.attrs_a.sym_getitem(I, key)))
+
+
+from pyvc.native import NativeCheck
+
+
+class NativeFusionPartners(NativeCheck):
+    name = 'fusion_partner_layouts'
+    props = ('C06',)
+    functions = (f'{VR}:VariantRecord.__eq__', f'{POD}:VariantRecordPoolOnDisk.__getitem__')
+    bounded_for = ('file layout / file order independence for records that set() may merge: two fusions of one donor transcript at one breakpoint '
+                   'with different partner transcripts, given as two files in both orders and as one file in both record orders')
+    bound = 'demo reference; donor ENST00000622235.5 at gene position 1751, partners ENST00000614167.2 / ENST00000614168.2 at 4 (quick) or 12 positions'
+    quick_budget_s = 120
+    thorough_budget_s = 400
+
+    def cases(self, rng, tier):
+        for pos in ((396, 397, 400, 402) if tier == 'quick' else range(392, 404)):
+            yield dict(accepter_position=pos)
+
+    def check(self, inp):
+        import tempfile, shutil, os
+        from . import cv_run
+        pos = inp['accepter_position']
+        hdr = [l.rstrip('\n') for l in open(cv_run.DATA / 'fusion/fusion.gvf') if l.startswith('#')]
+
+        def rec(acc):
+            return ('ENSG00000244486.9\t1752\tFUSION-ENST00000622235.5:1751-%s:%d\tG\t<FUSION>\t.\t.\tTRANSCRIPT_ID=ENST00000622235.5;GENE_SYMBOL=SCARF2;'
+                    'GENOMIC_POSITION=chr22:3213:3213;ACCEPTER_GENE_ID=ENSG00000128408.9;ACCEPTER_TRANSCRIPT_ID=%s;ACCEPTER_SYMBOL=RIBC2;ACCEPTER_POSITION=%d;'
+                    'ACCEPTER_GENOMIC_POSITION=chr22:%d:%d') % (acc, pos - 1, acc, pos, pos, pos)
+        ra, rb = rec('ENST00000614167.2'), rec('ENST00000614168.2')
+        d = tempfile.mkdtemp(prefix='verif_c06_')
+        try:
+            def w(name, recs):
+                path = os.path.join(d, name)
+                with open(path, 'w') as fh:
+                    fh.write('\n'.join(hdr + recs) + '\n')
+                return path
+            layouts = {'files A,B': [w('a.gvf', [ra]), w('b.gvf', [rb])], 'one file A,B': [w('ab.gvf', [ra, rb])], 'one file B,A': [w('ba.gvf', [rb, ra])]}
+            layouts['files B,A'] = list(reversed(layouts['files A,B']))
+            got = {}
+            for nm, files in layouts.items():
+                fasta, _ = cv_run.run_call_variant(gvfs=files)
+                got[nm] = set(fasta.values())
+            ref = got['files A,B']
+            for nm, seqs in got.items():
+                if seqs != ref:
+                    return dict(call=f'callVariant on two fusions of ENST00000622235.5:1751 with partners ENST00000614167.2 / ENST00000614168.2 at {pos}: "files A,B" vs "{nm}"',
+                                observed=dict(only_first=sorted(ref - seqs)[:5], only_second=sorted(seqs - ref)[:5], sizes={k: len(v) for k, v in got.items()}),
+                                expected='the same peptide set for every layout of the same two records', signature='peptide-set-depends-on-the-layout-of-fusion-records')
+        finally:
+            shutil.rmtree(d, ignore_errors=True)
+        return None
+
+    def nontrivial(self, inp):
+        return str(inp)
+
+
+NATIVE = [NativeFusionPartners()]
